@@ -15,6 +15,10 @@
   clamp              cdp_delta returns min(delta, 1)
   search-termination a search leaves its loop early only at a fixed point of the bisection (midpoint == an end of the bracket), never on
                      an absolute width tolerance
+  search-skip        when the number of passes of a search depends on a condition (`range(0 if C else N)`), C must imply that the search
+                     would end at the preset value anyway: the steering test, evaluated at the preset end of the bracket, already keeps
+                     that end fixed (the steering quantity is monotone in the searched variable).  C and that requirement are compared
+                     as affine thresholds  N(rho, eps) + t >= 0  with numeric constants
   early-exit         the only other returns are the tabled degenerate cases under exact tests: rho == 0 (delta 0 / eps 0) and delta >= 1
 Not decided: monotonicity, mutual inversion within tolerance, comparison with the exact Gaussian delta (numeric).
 """
@@ -159,6 +163,7 @@ def check_cdp_delta(ctx, fi):
     rho, eps = fi.params[0], fi.params[1]
     S = Search(fi)
     check_termination(ctx, fi, S)
+    check_skip(ctx, fi, S)
     alpha = S.MID
     atoms = Atoms()
     ev = SymEval({}, atoms)
@@ -315,11 +320,134 @@ def check_termination(ctx, fi, S):
             raise AnalysisError('%s: early exit `%s` of the search loop is neither a fixed-point nor a tolerance test' % (fi.qualname, U(par.test)))
 
 
+def check_skip(ctx, fi, S):
+    """a search whose number of passes depends on a condition"""
+    import math
+    from fractions import Fraction
+    from ..symexpr import Poly
+    loop = S.loop
+    if not isinstance(loop, ast.For):
+        return
+    it = loop.iter
+    if not (isinstance(it, ast.Call) and U(it.func) == 'range' and len(it.args) == 1):
+        raise AnalysisError('%s: unrecognised trip count `%s` of the search loop' % (fi.qualname, U(it)))
+
+    def at_entry(e, extra=None):
+        def fn(n):
+            if isinstance(n, ast.Name) and isinstance(n.ctx, ast.Load):
+                if extra and n.id in extra:
+                    return clone(extra[n.id])
+                if n.id in S.entry and not (isinstance(S.entry[n.id], ast.Name) and S.entry[n.id].id == n.id):
+                    return clone(S.entry[n.id])
+            return None
+        return Replace(fn).visit(clone(e))
+    count = at_entry(it.args[0])
+    if not isinstance(count, ast.IfExp):
+        if any(isinstance(n, ast.IfExp) for n in ast.walk(count)):
+            raise AnalysisError('%s: unrecognised conditional trip count `%s`' % (fi.qualname, U(count)))
+        return
+    zero_body = isinstance(count.body, ast.Constant) and count.body.value == 0
+    zero_else = isinstance(count.orelse, ast.Constant) and count.orelse.value == 0
+    if zero_body == zero_else:
+        raise AnalysisError('%s: unrecognised conditional trip count `%s`' % (fi.qualname, U(count)))
+    C, cpol = strip_not(count.test)
+    if not zero_body:
+        cpol = not cpol
+    # the value the result is computed from when the loop does not run
+    if S.mid_var not in S.entry:
+        raise AnalysisError('%s: the search can be skipped but `%s` has no value before the loop' % (fi.qualname, S.mid_var))
+    P = S.entry[S.mid_var]
+    if T(P) == T(S.inits[S.true_var]):
+        end = S.true_var
+    elif T(P) == T(S.inits[S.false_var]):
+        end = S.false_var
+    else:
+        raise AnalysisError('%s: the search can be skipped with `%s` = `%s`, which is neither end of the bracket' % (fi.qualname, S.mid_var, U(P)))
+    # requirement: at the preset end the steering test keeps that end where it is
+    R, rpol = strip_not(at_entry(S.test, {S.MID: P}))
+    if end == S.true_var:
+        rpol = not rpol
+    where = S.where(S.mid_var)
+    what = 'skipping the search leaves `%s` at the %s end `%s` of the bracket; that is the value the search ends at exactly when the steering ' \
+           'test there reads `%s%s`' % (S.mid_var, 'initial', U(P), '' if rpol else 'not ', U(R))
+    if T(C) == T(R) and cpol == rpol:
+        ctx.ob('search-skip', fi, where, True, what + '; the skip condition is that very test', construct='skip condition of the search in ' + fi.name)
+        return
+    # both as g >= 0 over affine forms with numeric constants
+    consts = {}
+
+    def hook(call, ev):
+        f = U(call.func)
+        if f.split('.')[-1] in ('log', 'log1p', 'exp', 'sqrt') and len(call.args) == 1:
+            try:
+                a = ev.ev(call.args[0])
+            except AnalysisError:
+                return None
+            if a.is_rat() and a.rat().isconst():
+                x = float(a.rat().constval())
+                try:
+                    val = {'log': math.log, 'log1p': math.log1p, 'exp': math.exp, 'sqrt': math.sqrt}[f.split('.')[-1]](x)
+                except ValueError:
+                    return None
+                name = 'const:%s' % U(call).replace(' ', '')
+                consts[name] = val
+                return sym(name)
+        return None
+
+    def affine(cmp_, pol):
+        if not (isinstance(cmp_, ast.Compare) and len(cmp_.ops) == 1 and type(cmp_.ops[0]) in NEGOP):
+            raise AnalysisError('%s: skip condition `%s` is not a comparison' % (fi.qualname, U(cmp_)))
+        op = type(cmp_.ops[0])
+        if not pol:
+            op = NEGOP[op]
+        ev = SymEval({}, Atoms(), hook)
+        l, r = ev.ev(cmp_.left), ev.ev(cmp_.comparators[0])
+        g = (l - r) if op in (ast.GtE, ast.Gt) else (r - l)
+        if not g.is_rat():
+            raise AnalysisError('%s: `%s` is outside the affine dialect' % (fi.qualname, U(cmp_)))
+        n, d = g.rat().n, g.rat().d
+        # the denominator must be positive for positive symbols
+        if not all(v > 0 for v in d.t.values()) or any(nm.startswith('const:') for nm in d.symbols()):
+            raise AnalysisError('%s: cannot fix the sign of the denominator of `%s`' % (fi.qualname, U(cmp_)))
+        var, cst = {}, 0.0
+        for k, v in n.t.items():
+            free = [(nm, e) for nm, e in k if not nm.startswith('const:')]
+            cpart = float(v)
+            for nm, e in k:
+                if nm.startswith('const:'):
+                    cpart *= consts[nm] ** e
+            if free:
+                key = tuple(free)
+                if len(free) != len(k):
+                    raise AnalysisError('%s: non-constant coefficient in `%s`' % (fi.qualname, U(cmp_)))
+                var[key] = var.get(key, Fraction(0)) + v
+            else:
+                cst += cpart
+        var = {k: v for k, v in var.items() if v != 0}
+        if not var:
+            raise AnalysisError('%s: `%s` does not depend on the parameters' % (fi.qualname, U(cmp_)))
+        k0 = sorted(var)[0]
+        scale = abs(var[k0])
+        return {k: v / scale for k, v in var.items()}, cst / float(scale)
+    vC, tC = affine(C, cpol)
+    vR, tR = affine(R, rpol)
+    if vC != vR:
+        raise AnalysisError('%s: the skip condition `%s%s` and the requirement `%s%s` are not thresholds of one quantity; cannot compare them'
+                            % (fi.qualname, '' if cpol else 'not ', U(C), '' if rpol else 'not ', U(R)))
+    ok = tC <= tR + 1e-12 * max(1.0, abs(tR))
+    ctx.ob('search-skip', fi, where, ok,
+           what + '; the skip condition `%s%s` is N + (%.6g) >= 0 and the requirement is N + (%.6g) >= 0 for the same N: %s'
+           % ('' if cpol else 'not ', U(C), tC, tR, 'the condition implies the requirement' if ok else
+              'the search is also skipped where it would have moved away from the preset value - the result is then not the optimum of the bound'),
+           construct='skip condition of the search in ' + fi.name)
+
+
 def check_inverse(ctx, fi, cd, searched, kind):
     """cdp_eps (searched=1: eps is the 2nd argument of cdp_delta) / cdp_rho (searched=0)"""
     ctx.analysed(fi)
     S = Search(fi)
     check_termination(ctx, fi, S)
+    check_skip(ctx, fi, S)
     atoms = Atoms()
     ev = SymEval({}, atoms)
     other_param = fi.params[0]       # rho for cdp_eps, eps for cdp_rho
